@@ -69,6 +69,8 @@ pub struct GenCfg {
     pub disc_pct: u32,
     /// an Into target that mentions a type parameter (`Into(Option<T>)`)
     pub generic_into: bool,
+    /// percent chance that the definition is produced through a `macro_rules!` invocation
+    pub macro_pct: u32,
 }
 
 impl GenCfg {
@@ -118,6 +120,7 @@ impl GenCfg {
             repr_pct: 30,
             disc_pct: 30,
             generic_into: true,
+            macro_pct: 8,
         }
     }
     /// concrete (non-generic) types with plain attributes: the base for behavioural checks
@@ -1381,7 +1384,7 @@ pub fn build(d: &mut Dna, cfg: &GenCfg) -> Built {
             }
         }
     }
-    let mut spec = TypeSpec { kind, name: type_name, gens, repr, traits: tattrs, split: d.byte(), variants, raw: vec![], extra_items: vec![], noise: vec![], disc_shift: false };
+    let mut spec = TypeSpec { kind, name: type_name, gens, repr, traits: tattrs, split: d.byte(), variants, raw: vec![], extra_items: vec![], noise: vec![], disc_shift: false, via_macro: 0 };
 
     // type-level Default expression: a full constructor of the default variant, all fields value 1
     if type_level_default_expr {
@@ -1449,6 +1452,23 @@ pub fn build(d: &mut Dna, cfg: &GenCfg) -> Built {
         }
         if spelled {
             classes.push("discriminant_literal_spelling");
+        }
+    }
+    // the definition may come out of a macro: field types and discriminants are then `$t:ty` / `$d:expr` fragments, which
+    // reach the derive wrapped in invisible (None-delimited) groups
+    if cfg.macro_pct > 0 && nvariants_nonzero(&spec) && d.chance(cfg.macro_pct) {
+        let has_fields = spec.all_fields().next().is_some();
+        let has_disc = spec.variants.iter().any(|v| v.disc.is_some());
+        let mut m = 0u8;
+        if has_fields && d.chance(80) {
+            m |= 1;
+        }
+        if has_disc && d.chance(80) {
+            m |= 2;
+        }
+        if m != 0 {
+            spec.via_macro = m;
+            classes.push("definition_via_macro_rules");
         }
     }
     // raw identifiers as variant names (field names are drawn from the pool above)
